@@ -34,7 +34,7 @@ ASSUMPTIONS = [
 ]
 MUST_SEE = [
     "equal_key_pairs", "near_miss_same_class", "cross_process_keys", "separator_strings", "falsy_children", "tuple_perm",
-    "class_swap", "lifetime_rechecks", "rebuild_legs", "is_equal_true", "is_equal_false",
+    "class_swap", "lifetime_rechecks", "rebuild_legs", "is_equal_true", "is_equal_false", "same_named_class_probe",
 ]
 CONFIG = {
     "quick": {"shards": 16, "seeds": 250, "variants": 14, "common": 60, "watchdog_s": 300},
@@ -169,6 +169,9 @@ def run_shard(ctx):
     if ctx.shard % 4 >= 2:
         config.ID_DIGEST_SIZE = 16
     pool = Pool(U)
+    from vlib.universe import warm_up
+
+    ctx.extra["first_use_order"] = warm_up(U, ctx.rng("warm-up"))[:6]
     keep = []  # strong refs to roots
 
     # ---- common pool: identical specs in every shard (cross-process join) ----
@@ -218,6 +221,24 @@ def run_shard(ctx):
         r = build(U, sp)
         keep.append(r)
         pool.add_tree(sp, r)
+    # the same class *name* defined twice in one module (redefinition while old instances survive):
+    # two different classes -> is_equal must be False; their digests coincide because the digest
+    # identifies the class by its name only (recorded mechanism 'same-named-classes')
+    src = f"@dataclass(frozen=True)\nclass {P}Redef({P}Expr):\n    v: int = 0\n"
+    exec(compile(src, "<c01 redef 1>", "exec", dont_inherit=True), U.module.__dict__)
+    old_cls = U.module.__dict__[f"{P}Redef"]
+    a_old = old_cls(v=5)
+    exec(compile(src, "<c01 redef 2>", "exec", dont_inherit=True), U.module.__dict__)
+    new_cls = U.module.__dict__[f"{P}Redef"]
+    b_new = new_cls(v=5)
+    keep += [a_old, b_new]
+    ctx.evaluations += 1
+    ctx.count("same_named_class_probe")
+    if new_cls is not old_cls:
+        if a_old.is_equal(b_new) or b_new.is_equal(a_old):
+            ctx.violation("is_equal-across-classes", "is_equal is True for instances of two different classes (same name, class redefined)", {"class": f"{P}Redef"})
+        if a_old.content_id == b_new.content_id:
+            ctx.violation("same-named-classes", "instances of two different classes with the same name share one content_id", {"class": f"{P}Redef"})
     # falsy child present vs absent, element 0 of a tuple vs single child
     for sp in (
         S(f"{P}Slot", {}, {"child": S(f"{P}Falsy")}),
